@@ -242,6 +242,9 @@ theorem runOp_quiet (r : RunSt) (op : Op) (h1 : isReadOp op = false) (h2 : isDea
   | streamExit =>
     simp only [runOp, cutR]
     cases r.streams <;> exact ⟨⟨rfl, rfl, rfl⟩, rfl, rfl⟩
+  | streamExitAt k =>
+    simp only [runOp, cutR]
+    cases List.find? (fun x => x.1 == k) r.streams <;> exact ⟨⟨rfl, rfl, rfl⟩, rfl, rfl⟩
   | sleep n => exact ⟨⟨rfl, rfl, rfl⟩, rfl, rfl⟩
   | write b ign =>
     have h := write_quiet b ign (cut r.st)
@@ -353,6 +356,7 @@ theorem runOp_read (r : RunSt) (op : Op) (h1 : isReadOp op = true) :
   | setSlow d c => simp [isReadOp] at h1
   | streamEnter id sp => simp [isReadOp] at h1
   | streamExit => simp [isReadOp] at h1
+  | streamExitAt k => simp [isReadOp] at h1
   | sleep n => simp [isReadOp] at h1
   | write b ign => simp [isReadOp] at h1
   | sendcontrol n => simp [isReadOp] at h1
@@ -396,6 +400,7 @@ theorem c05_of_read (m : DeathMon) (op : Op) (h1 : isReadOp op = true) (o : OpOb
   | setSlow d c => simp [isReadOp] at h1
   | streamEnter id sp => simp [isReadOp] at h1
   | streamExit => simp [isReadOp] at h1
+  | streamExitAt k => simp [isReadOp] at h1
   | sleep n => simp [isReadOp] at h1
   | write b ign => simp [isReadOp] at h1
   | sendcontrol n => simp [isReadOp] at h1
@@ -425,6 +430,7 @@ theorem c05_of_quiet (m : DeathMon) (op : Op) (h1 : isReadOp op = false) (h2 : i
   | setSlow d c => rfl
   | streamEnter id sp => rfl
   | streamExit => rfl
+  | streamExitAt k => rfl
   | sleep n => rfl
   | write b ign => rfl
   | sendcontrol n => rfl
@@ -504,6 +510,7 @@ theorem c05_step (m : DeathMon) (r : RunSt) (op : Op) (hrel : Rel m r) (hop : op
   | setSlow d c => simp [isDeathOp] at hdeath
   | streamEnter id sp => simp [isDeathOp] at hdeath
   | streamExit => simp [isDeathOp] at hdeath
+  | streamExitAt k => simp [isDeathOp] at hdeath
   | sleep n => simp [isDeathOp] at hdeath
   | write b ign => simp [isDeathOp] at hdeath
   | sendcontrol n => simp [isDeathOp] at hdeath
